@@ -46,6 +46,12 @@ func (c16) Gen(r *rand.Rand, tier string, run int) *core.Case {
 		c.Ops = append(c.Ops, core.Op{Kind: "call", Actor: 22, X: target}, core.Op{Kind: []string{"remove", "terminate"}[r.IntN(2)], Actor: 22, X: target, Y: int64(r.IntN(3))})
 		actors = 1 + r.IntN(2)
 	}
+	c.Params["slow_ms"] = r.IntN(4)
+	if c.Batch == "" && r.IntN(4) == 0 {
+		c.Batch = "burst"
+		c.Params["conns"] = 2 + r.IntN(2)
+		c.Ops = append(c.Ops, core.Op{Kind: "burst", Actor: 30, X: int64(1 + r.IntN(objs)), Y: int64(12 + r.IntN(8)), S: []string{"", "terminate", "terminate"}[r.IntN(3)]})
+	}
 	for a := 0; a < actors; a++ {
 		n := 1 + r.IntN(4)
 		for i := 0; i < n; i++ {
@@ -115,7 +121,7 @@ func (c16) Run(c *core.Case, env *core.Env) {
 	add := func(a int) *c16obj {
 		h := env.Invoke(a, "add", "")
 		zzsim.SetNode("server")
-		impl := &ProbeImpl{Env: env}
+		impl := &ProbeImpl{Env: env, SlowMs: c.P("slow_ms", 0)}
 		st.mu.Lock()
 		o := &c16obj{slot: len(st.objs), impl: impl}
 		impl.Obj = o.slot
@@ -223,6 +229,33 @@ func (c16) Run(c *core.Case, env *core.Env) {
 		defer st.mu.Unlock()
 		return st.objs[int(x)%len(st.objs)]
 	}
+	removal := func(a int, kind string, o *c16obj, y int) {
+		if o.slot == 0 {
+			return
+		}
+		h := env.Invoke(a, kind, fmt.Sprintf("slot%d id=%d", o.slot, o.id))
+		st.mu.Lock()
+		if o.removeCall == 0 {
+			o.removeCall = h.Call
+		}
+		st.mu.Unlock()
+		var err error
+		if kind == "remove" {
+			zzsim.SetNode("server")
+			err = w.Svc.Remove(o.id)
+			zzsim.SetNode("harness")
+		} else if len(o.proxies) > 0 {
+			err = o.proxies[y%len(o.proxies)].Terminate(o.id)
+		} else {
+			err = fmt.Errorf("no proxy")
+		}
+		env.Return(h, "", err)
+		if err == nil {
+			st.mu.Lock()
+			o.removeRets = append(o.removeRets, h.Ret)
+			st.mu.Unlock()
+		}
+	}
 	var wg sync.WaitGroup
 	for _, a := range actors {
 		wg.Add(1)
@@ -238,32 +271,26 @@ func (c16) Run(c *core.Case, env *core.Env) {
 				case "subscribe":
 					subscribe(a, pick(op.X), int(op.Y))
 				case "remove", "terminate":
+					removal(a, op.Kind, pick(op.X), int(op.Y))
+				case "burst":
+					// more calls in flight on one object than its mailbox holds
+					// (the method takes simulated time), from every connection,
+					// and sometimes its termination among them
 					o := pick(op.X)
-					if o.slot == 0 {
-						continue
+					var bw sync.WaitGroup
+					for k := 0; k < int(op.Y); k++ {
+						bw.Add(1)
+						go func(k int) {
+							defer bw.Done()
+							if op.S == "terminate" && k == 2 {
+								removal(a, "terminate", o, k)
+								return
+							}
+							c16slow(env, a, i*100+k, o, k)
+						}(k)
 					}
-					h := env.Invoke(a, op.Kind, fmt.Sprintf("slot%d id=%d", o.slot, o.id))
-					st.mu.Lock()
-					if o.removeCall == 0 {
-						o.removeCall = h.Call
-					}
-					st.mu.Unlock()
-					var err error
-					if op.Kind == "remove" {
-						zzsim.SetNode("server")
-						err = w.Svc.Remove(o.id)
-						zzsim.SetNode("harness")
-					} else if len(o.proxies) > 0 {
-						err = o.proxies[int(op.Y)%len(o.proxies)].Terminate(o.id)
-					} else {
-						err = fmt.Errorf("no proxy")
-					}
-					env.Return(h, "", err)
-					if err == nil {
-						st.mu.Lock()
-						o.removeRets = append(o.removeRets, h.Ret)
-						st.mu.Unlock()
-					}
+					bw.Wait()
+					env.Probe("bursts")
 				}
 			}
 		}(a)
@@ -286,6 +313,16 @@ func c16call(env *core.Env, a, i int, o *c16obj, which int) {
 	tok := probe.Token{Client: int32(a), Seq: int32(i), Nonce: int64(o.slot), Text: "t"}
 	h := env.Invoke(a, "call", fmt.Sprintf("%s@slot%d", tokOf(tok).Key(), o.slot))
 	ret, err := o.proxies[which%len(o.proxies)].Echo(tok)
+	env.Return(h, tokOf(ret).String(), err)
+}
+
+func c16slow(env *core.Env, a, i int, o *c16obj, which int) {
+	if len(o.proxies) == 0 {
+		return
+	}
+	tok := probe.Token{Client: int32(a), Seq: int32(i), Nonce: int64(o.slot), Text: "t"}
+	h := env.Invoke(a, "call", fmt.Sprintf("%s@slot%d", tokOf(tok).Key(), o.slot))
+	ret, err := o.proxies[which%len(o.proxies)].Slow(tok)
 	env.Return(h, tokOf(ret).String(), err)
 }
 
@@ -370,7 +407,7 @@ func (c16) Check(c *core.Case, env *core.Env, res zzsim.Result, v *core.Verdict)
 			key, _, _ := strings.Cut(h.Arg, "@")
 			ran := 0
 			for _, e := range execs {
-				if e.Key == key && e.Method == "echo" {
+				if e.Key == key && (e.Method == "echo" || e.Method == "slow") {
 					ran++
 					if e.Obj != o.slot {
 						bad("wrong-object", "%s: call %s ran on object slot %d", name, h, e.Obj)
@@ -386,7 +423,13 @@ func (c16) Check(c *core.Case, env *core.Env, res zzsim.Result, v *core.Verdict)
 				}
 			} else if o.removeCall == 0 || h.Ret < o.removeCall {
 				// the object was live during the whole call
-				if !h.OK {
+				if !h.OK && ran == 0 && strings.Contains(h.Out+h.Err, "message dropped: consumer blocked") {
+					// the endpoint sheds load when the queue of the
+					// connection's consumer is full and says so to the
+					// caller (bus/net ErrConsumerBlocked): the object was
+					// not reached, which is not a statement about the object
+					env.Probe("calls-shed-by-full-queue")
+				} else if !h.OK {
 					bad("live-object-refused", "%s is live but a call to it failed: %s", name, h)
 				} else if ran != 1 {
 					bad("live-object-exec-count", "%s: call %s ran %d times", name, h, ran)
